@@ -166,6 +166,8 @@ FinalizeOne(agg, xs) ==
     [] agg.finalize = "mean"   -> Div(xs[1], xs[2])
     [] agg.finalize \in {"var", "std"} -> VarFinalize(xs[1], xs[2], xs[3], agg.ddof)
     [] agg.finalize = "second" -> xs[2]
+    [] agg.finalize = "range"  -> Sub(xs[1], xs[2])     \* user library: max - min
+    [] agg.finalize = "ratio"  -> Div(xs[1], xs[2])     \* user library: sum of squares / count
 
 (* _finalize_results: finalize, mask by the counter, optionally reindex to   *)
 (* the expected labels (absent -> the user's fill).                          *)
